@@ -454,32 +454,20 @@ Section Lane4Eq.
     apply (lane4_kernel_ok add zero C K P P_zero P_add add_zero cs kss); auto.
   Qed.
 
-  (* the NEON wrapper has no row-range assertion: it agrees with the generic pipeline on every
-     range whose rows (with the M - 1 rows below them) exist in the sequence matrix ... *)
-  Theorem neon_equiv_in_range cs pssm q a b old :
+  (* the NEON wrapper: same guards, same kernel shape *)
+  Theorem neon_equiv cs pssm q a b old :
     lane4_layout_ok cs = true ->
     0 < C -> C mod 16 = 0 ->
     mat_wf C K (sq_mat q) -> pssm_wf K pssm -> sc_wf C old ->
     1 <= length pssm -> length pssm - 1 <= sq_wrap q ->
-    b + length pssm - 1 <= length (sq_mat q) \/ sq_len q < length pssm \/ b <= a ->
     res_equiv (neon_rows_into add zero cs C pssm q a b old)
               (generic_rows_into add zero C pssm q a b old).
   Proof.
-    intros Hlay HC HC16 Hm Hp Hw HM Hwrap Hrange.
+    intros Hlay HC HC16 Hm Hp Hw HM Hwrap.
     destruct (lane4_layout_facts cs Hlay) as [kss [H1 [H2 [H3 [H4 [H5 H6]]]]]].
-    unfold neon_rows_into, neon_guard.
-    replace (length pssm =? 0) with false by (symmetry; apply Nat.eqb_neq; lia).
-    replace (sq_wrap q <? length pssm - 1) with false by (symmetry; apply Nat.ltb_ge; lia).
-    destruct ((sq_len q <? length pssm) || negb (a <? b)) eqn:E.
-    - unfold generic_rows_into. rewrite E. simpl. reflexivity.
-    - apply orb_false_iff in E. destruct E as [E1 E2].
-      apply Nat.ltb_ge in E1. apply negb_false_iff in E2. apply Nat.ltb_lt in E2.
-      destruct Hrange as [Hb|[Hc|Hc]]; try lia.
-      rewrite (lane4_kernel_ok add zero C K P P_zero P_add add_zero cs kss); auto.
-      + rewrite (generic_rows_into_ok add zero C K); auto. simpl. reflexivity.
-      + unfold sc_resize. cbn [sc_mat]. apply m_resize_length.
-      + intros r Hr. unfold sc_resize in Hr. cbn [sc_mat] in Hr. rewrite m_resize_length in Hr.
-        apply (sc_resize_rows zero C); auto.
+    unfold neon_rows_into. apply (simd_guard_equiv add zero C K); auto.
+    intros Hab Hb HL buf Hlenb Hrows.
+    apply (lane4_kernel_ok add zero C K P P_zero P_add add_zero cs kss); auto.
   Qed.
 End Lane4Eq.
 
